@@ -168,6 +168,14 @@ def dec_cases(rng, tier):
         "ldec 300 f0ff", "ldec 300 1f610100ff", "ldec 4 10610100",
     ]
     cases += [c for c in fixed if len(c.split()) == 3 and (len(c.split()[2]) % 2 == 0 or c.split()[2] == "-")]
+    # large back-references: > 32 KiB / 64 KiB / 128 KiB already produced, copy-4 and copy-2 / LZ4 offsets that
+    # carquet's compressors never emit (implementation and reference decoders only)
+    for fmt, label, s, x in CL.far_reference_streams(rng, tier):
+        op = "sdec" if fmt == "snappy" else "ldec"
+        cases.append(f"{op} {len(x)} {hexs(s)}")
+        cases.append(f"{op} {len(x) + 5} {hexs(s)}")
+        cases.append(f"{op} {len(x) - 1} {hexs(s)}")
+        cases.append(f"{op} {len(x)} {hexs(s[:-1])}")
     # a few large streams (implementation and reference only)
     for _ in range(3 if tier == "quick" else 20):
         s, x = CL.gen_snappy_stream(rng, nelems=rng.randrange(3, 8), big=True)
